@@ -174,6 +174,15 @@ impl<'a, Key, Freq> FrequencyCounterBasedMinHeapSamples<'a, Key, Freq>
 /// Every time a key is added in the cache, it is also added in `CacheWeight`, there by increasing the total weight of the cache.
 /// Every time a key is updated, an attempt is made to update its weight, there by changing the total weight of the cache.
 /// Every time a key is deleted, it is also deleted from `CacheWeight`, there by decreasing the total weight of the cache.
+#[cfg(feature = "verif")]
+impl<'a, Key, Freq> FrequencyCounterBasedMinHeapSamples<'a, Key, Freq>
+    where Freq: Fn(KeyHash) -> FrequencyEstimate {
+    /// (key id, weight, estimated frequency) of every key currently in the sample.
+    pub(crate) fn verif_view(&self) -> Vec<crate::cache::verif::SampleEntry> {
+        self.sample.iter().map(|sampled_key| (sampled_key.id, sampled_key.weight, sampled_key.estimated_frequency)).collect()
+    }
+}
+
 pub(crate) struct CacheWeight<Key>
     where Key: Hash + Eq + Send + Sync + Clone + 'static, {
     max_weight: Weight,
@@ -209,8 +218,12 @@ impl<Key> CacheWeight<Key>
 
     pub(crate) fn add(&self, key_description: &KeyDescription<Key>) {
         self.key_weights.insert(key_description.id, WeightedKey::new(key_description.clone_key(), key_description.hash, key_description.weight));
+        #[cfg(feature = "verif")]
+        crate::cache::verif::point(crate::cache::verif::Site::WeightAddBetween);
         let mut guard = self.weight_used.write();
         *guard += key_description.weight;
+        #[cfg(feature = "verif")]
+        crate::cache::verif::emit(|| crate::cache::verif::Event::WeightChanged { site: crate::cache::verif::WeightSite::Add, key_id: key_description.id, new_total: *guard, max_weight: self.max_weight });
 
         self.stats_counter.add_weight(key_description.weight as u64);
     }
@@ -220,8 +233,12 @@ impl<Key> CacheWeight<Key>
             {
                 let mut guard = self.weight_used.write();
                 *guard += weight - existing.weight;
+                #[cfg(feature = "verif")]
+                crate::cache::verif::emit(|| crate::cache::verif::Event::WeightChanged { site: crate::cache::verif::WeightSite::Update, key_id: *key_id, new_total: *guard, max_weight: self.max_weight });
             }
 
+            #[cfg(feature = "verif")]
+            crate::cache::verif::point(crate::cache::verif::Site::WeightUpdateHoldingEntry);
             self.stats_counter.update_key();
             self.update_weight_stats(weight, existing.weight);
 
@@ -236,8 +253,14 @@ impl<Key> CacheWeight<Key>
     pub(crate) fn delete<DeleteHook>(&self, key_id: &KeyId, delete_hook: &DeleteHook)
         where DeleteHook: Fn(Key) {
         if let Some(weight_by_key_hash) = self.key_weights.remove(key_id) {
+            #[cfg(feature = "verif")]
+            crate::cache::verif::point(crate::cache::verif::Site::WeightDeleteAfterRemove);
             let mut guard = self.weight_used.write();
             *guard -= weight_by_key_hash.1.weight;
+            #[cfg(feature = "verif")]
+            crate::cache::verif::emit(|| crate::cache::verif::Event::WeightChanged { site: crate::cache::verif::WeightSite::Delete, key_id: *key_id, new_total: *guard, max_weight: self.max_weight });
+            #[cfg(feature = "verif")]
+            crate::cache::verif::point(crate::cache::verif::Site::WeightDeleteHoldingTotal);
             delete_hook(weight_by_key_hash.1.key);
 
             self.stats_counter.remove_weight(weight_by_key_hash.1.weight as u64);
@@ -262,6 +285,8 @@ impl<Key> CacheWeight<Key>
         self.key_weights.clear();
         let mut guard = self.weight_used.write();
         *guard = 0;
+        #[cfg(feature = "verif")]
+        crate::cache::verif::emit(|| crate::cache::verif::Event::WeightChanged { site: crate::cache::verif::WeightSite::Clear, key_id: 0, new_total: *guard, max_weight: self.max_weight });
     }
 
     fn update_weight_stats(&self, new_weight: Weight, existing_weight: Weight) {
@@ -272,6 +297,15 @@ impl<Key> CacheWeight<Key>
             let difference = existing_weight - new_weight;
             self.stats_counter.add_weight(!(difference - 1) as u64);
         }
+    }
+}
+
+#[cfg(feature = "verif")]
+impl<Key> CacheWeight<Key>
+    where Key: Hash + Eq + Send + Sync + Clone + 'static, {
+    /// (key id, key, key hash, charged weight) of every charged key.
+    pub(crate) fn verif_entries(&self) -> Vec<(KeyId, Key, KeyHash, Weight)> {
+        self.key_weights.iter().map(|pair| (*pair.key(), pair.value().key.clone(), pair.value().key_hash, pair.value().weight)).collect()
     }
 }
 
